@@ -12,7 +12,7 @@ from common import *
 
 IMPORTS = ("From CV Require Import Base.Cmp Base.QcLin Model.C07_Adj.\n"
            "From Coq Require Import QArith Qcanon.")
-RULE = ("configuration lattice: backing (dense/csc/csr matrix, function pair) x domain geometry x range geometry "
+RULE = ("configuration lattice: backing (dense/csc/csr matrix, allocating function pair, function pair returning views / its argument / its argument modified in place / lists) x domain geometry x range geometry "
         "(int, Continuous1D, Discrete, Image2D visual_only | Image2D C/F, 2-tuple, Continuous2D | StepExpansion(mean) | "
         "KLExpansion | MappedGeometry(scaling)) x operation (forward+adjoint, get_matrix, T.forward/T.adjoint/T.get_matrix/T.T, "
         "T after get_matrix); test problems Deconvolution1D (5 BC x gauss/moffat/defocus/custom integer PSFs x PSF size parity, "
@@ -204,6 +204,58 @@ def psf_used_1d(spec):
     return f(size, spec.get("PSF_param"))[0]
 
 
+def impl_pair(kind, n, par=None):
+    """Function pairs on R^n that do NOT allocate their result: they return a view of their argument, the argument object
+    itself, or the argument modified in place (plus allocating / list-returning controls).
+    Returns (forward, adjoint, defining matrix A of shape (m, n), mutates_input)."""
+    I = np.eye(n)
+    if kind == "identity":                      # the very object
+        return (lambda x: x), (lambda y: y), I, False
+    if kind == "identity_view":                 # a new array object on the same memory
+        return (lambda x: x[:]), (lambda y: y[:]), I, False
+    if kind == "ravel":
+        return (lambda x: x.ravel()), (lambda y: y.reshape(-1)), I, False
+    if kind in ("decimate", "decimate_list", "decimate_tuple", "upsample"):
+        s_ = int(par)
+        A = I[::s_, :]
+        if kind == "decimate_list":
+            dec = lambda x: list(x[::s_])
+        elif kind == "decimate_tuple":
+            dec = lambda x: tuple(x[::s_])
+        else:
+            dec = lambda x: x[::s_]                # strided view
+        def pad(y):
+            z = np.zeros(n); z[::s_] = y; return z
+        if kind == "upsample":                  # the transposed pair: the ADJOINT returns the view
+            return pad, dec, A.T.copy(), False
+        if kind == "decimate_list":
+            return dec, (lambda y: list(pad(y))), A, False
+        if kind == "decimate_tuple":
+            return dec, (lambda y: tuple(pad(y))), A, False
+        return dec, pad, A, False
+    if kind in ("window", "embed"):
+        a, b = int(par[0]), int(par[1])
+        A = I[a:b, :]
+        win = lambda x: x[a:b]                     # contiguous view
+        def emb(y):
+            z = np.zeros(n); z[a:b] = y; return z
+        return (win, emb, A, False) if kind == "window" else (emb, win, A.T.copy(), False)
+    if kind == "flip":
+        return (lambda x: x[::-1]), (lambda y: y[::-1]), I[::-1, :].copy(), False
+    if kind == "perm":                          # allocating control (fancy indexing copies)
+        idx = [int(i) for i in par]
+        def unperm(y):
+            z = np.zeros(n); z[idx] = y; return z
+        return (lambda x: x[idx]), unperm, I[idx, :], False
+    if kind == "inplace_scale":                 # modifies its argument and returns it
+        c = float(par)
+        def f(x):
+            x *= c
+            return x
+        return f, f, c * I, True
+    raise ValueError(kind)
+
+
 def build_model(meta):
     """meta['model'] describes the model; returns M"""
     from cuqi.model import LinearModel
@@ -256,6 +308,13 @@ def build_model(meta):
         mod = LinearModel(Aobj, **kw)
         coq = "(mat_model %s %s %s %s)" % (cnat(A.shape[1]), enc_mat(A), D.coq, R.coq)
         return M(mod, coq, D, R, backing, exact, A.shape[1], A.shape[0])
+    if backing == "function" and ms.get("impl"):
+        fwd, adj, A2, mutates = impl_pair(ms["impl"], ms["n"], ms.get("par"))
+        if A2.shape != A.shape or not np.array_equal(A2, A):
+            raise ValueError("defining matrix of %s does not match the stored one" % (ms["impl"],))
+        mod = LinearModel(fwd, adj, R.obj, D.obj)
+        coq = "(fun_model %s %s %s %s)" % (cnat(A.shape[1]), enc_mat(A), D.coq, R.coq)
+        return M(mod, coq, D, R, backing, exact, D.par_dim, R.par_dim, {"impl": ms["impl"], "mutates": mutates})
     if backing == "function":
         shpD, shpR = D.fun_shape, R.fun_shape
         fwd = lambda X, A=A, s=shpR: (A @ np.asarray(X).ravel()).reshape(s)
@@ -269,13 +328,46 @@ def build_model(meta):
 # ------------------------------------------------------------------------------------------------
 # driving the implementation
 # ------------------------------------------------------------------------------------------------
-def call_vec(f, v):
+class Alias:
+    """Keeps every array handed to or returned by the implementation alive, with a snapshot of its value at call time, so that
+    aliasing between inputs, outputs and internal buffers shows: changed() re-reads all of them after the later calls."""
+    def __init__(self):
+        self.kept = []
+
+    @staticmethod
+    def _val(raw):
+        import scipy.sparse as sp
+        return np.array(raw.todense() if sp.issparse(raw) else raw, dtype=float)
+
+    def keep(self, label, raw, snap=None):
+        try:
+            self.kept.append((label, raw, self._val(raw) if snap is None else np.array(snap, dtype=float)))
+        except Exception:
+            pass
+
+    def changed(self):
+        for label, raw, snap in self.kept:
+            try:
+                cur = self._val(raw)
+            except Exception:
+                return "%s can no longer be read" % label
+            if cur.shape != snap.shape or not np.array_equal(cur, snap):
+                return "%s changed after the call that produced / received it: was %s, is now %s" % (label, snap.tolist(), cur.tolist())
+        return None
+
+
+def call_vec(f, v, al=None, label="", mutates=False):
     """apply a forward/adjoint-like callable; returns list of floats, or None if it raises / returns a non-vector"""
     try:
+        arr = np.array(v, dtype=float)
         with warnings.catch_warnings():
             warnings.simplefilter("ignore")
-            out = f(np.array(v, dtype=float))
-        out = np.asarray(out, dtype=float)
+            raw = f(arr)
+        if al is not None:
+            al.keep("the result of %s" % label, raw)
+            if not mutates:
+                al.keep("the array passed to %s" % label, arr, snap=v)
+        out = np.asarray(raw, dtype=float)
         if out.ndim != 1 or not np.all(np.isfinite(out)):
             return "non-vector output of shape %s" % (out.shape,)
         return [float(a) for a in out]
@@ -283,13 +375,15 @@ def call_vec(f, v):
         return None
 
 
-def call_mat(f):
+def call_mat(f, al=None, label=""):
     import scipy.sparse as sp
     try:
         with warnings.catch_warnings():
             warnings.simplefilter("ignore")
-            A = f()
-        A = np.asarray(A.todense()) if sp.issparse(A) else np.asarray(A, dtype=float)
+            raw = f()
+        if al is not None:
+            al.keep("the matrix returned by %s" % label, raw)
+        A = np.asarray(raw.todense()) if sp.issparse(raw) else np.asarray(raw, dtype=float)
         if A.ndim != 2:
             return None
         return [[float(a) for a in r] for r in A]
@@ -361,36 +455,54 @@ def observe(m, meta):
     mod = m.obj
     o = {}
     op = meta["op"]
+    al = Alias()
+    mut = bool(m.info.get("mutates"))
+    cv = lambda f, v, label: call_vec(f, v, al, label, mut)
     if op == "fa":
-        o["fx"] = call_vec(mod.forward, x)
-        o["ay"] = call_vec(mod.adjoint, y)
+        o["fx"] = cv(mod.forward, x, "forward(x)")
+        o["ay"] = cv(mod.adjoint, y, "adjoint(y)")
     elif op == "gm":
-        o["G"] = call_mat(mod.get_matrix)
-        o["fx"] = call_vec(mod.forward, x)
-        o["cols"] = [call_vec(mod.forward, [1.0 if i == j else 0.0 for i in range(m.D.par_dim)]) for j in range(m.D.par_dim)]
-        o["G2"] = call_mat(mod.get_matrix)       # cached second call
+        o["G"] = call_mat(mod.get_matrix, al, "get_matrix()")
+        o["fx"] = cv(mod.forward, x, "forward(x)")
+        o["cols"] = [cv(mod.forward, [1.0 if i == j else 0.0 for i in range(m.D.par_dim)], "forward(e_%d)" % j) for j in range(m.D.par_dim)]
+        o["G2"] = call_mat(mod.get_matrix, al, "the second get_matrix()")       # cached second call
     elif op in ("T", "T_after_gm"):
         if op == "T_after_gm":
-            call_mat(mod.get_matrix)
+            call_mat(mod.get_matrix, al, "get_matrix() before T")
         try:
             T = mod.T
         except Exception:
             T = None
         o["T_ok"] = T is not None
-        o["fx"] = call_vec(mod.forward, x)
-        o["ay"] = call_vec(mod.adjoint, y)
+        o["fx"] = cv(mod.forward, x, "forward(x)")
+        o["ay"] = cv(mod.adjoint, y, "adjoint(y)")
         if T is not None:
-            o["Tf"] = call_vec(T.forward, y)
-            o["Ta"] = call_vec(T.adjoint, x)
-            o["TG"] = call_mat(T.get_matrix)
-            o["G"] = call_mat(mod.get_matrix)
+            o["Tf"] = cv(T.forward, y, "T.forward(y)")
+            o["Ta"] = cv(T.adjoint, x, "T.adjoint(x)")
+            o["TG"] = call_mat(T.get_matrix, al, "T.get_matrix()")
+            o["G"] = call_mat(mod.get_matrix, al, "get_matrix() after T")
             o["geoms_swapped"] = (T.domain_geometry is mod.range_geometry) and (T.range_geometry is mod.domain_geometry)
             try:
                 TT = T.T
-                o["TTf"] = call_vec(TT.forward, x)
+                o["TTf"] = cv(TT.forward, x, "T.T.forward(x)")
             except Exception:
                 o["TTf"] = None
+    # the same calls once more after everything else, and everything kept alive read again
+    o["fx_end"] = cv(mod.forward, x, "the last forward(x)")
+    o["ay_end"] = cv(mod.adjoint, y, "the last adjoint(y)")
+    o["alias"] = al.changed()
     return o
+
+
+def stability_oracle(m, meta, o):
+    """results are values: the same call gives the same result later, and nothing handed out or passed in changes afterwards"""
+    op = meta["op"]
+    if o.get("alias"):
+        return (o["alias"], "LinearModel|aliasing:" + op)
+    for first, last, what in (("fx", "fx_end", "forward(x)"), ("ay", "ay_end", "adjoint(y)")):
+        if first in o and o[first] != o[last] and not (isinstance(o[first], list) and same_vec(o[first], o[last], True)):
+            return ("%s = %s at first but %s when called again at the end" % (what, o[first], o[last]), "LinearModel|not-repeatable:" + op)
+    return (None, "")
 
 
 def property_oracle(m, meta, o):
@@ -398,6 +510,9 @@ def property_oracle(m, meta, o):
     x, y = meta["x"], meta["y"]
     ex = m.exact
     op = meta["op"]
+    detail, sig = stability_oracle(m, meta, o)
+    if detail:
+        return (detail, sig)
     if op == "fa":
         if not isinstance(o["fx"], list) or not isinstance(o["ay"], list):
             return ("forward or adjoint raised / returned a non-vector: forward=%s adjoint=%s" % (o["fx"], o["ay"]), adj_signature(m, meta))
@@ -422,6 +537,8 @@ def property_oracle(m, meta, o):
                 return ("column %d of get_matrix is %s but forward(e_%d) = %s" % (j, [r[j] for r in Gm], j, cj), sig)
         if not same_vec(matvec(Gm, x), o["fx"], ex):
             return ("get_matrix() @ x = %s but forward(x) = %s" % ([float(v) for v in matvec(Gm, x)], o["fx"]), sig)
+        if m.backing == "function" and m.D.ident and m.R.ident and "A" in meta["model"] and not same_mat(Gm, meta["model"]["A"], ex):
+            return ("get_matrix() = %s is not the defining matrix %s of the function pair" % (Gm, meta["model"]["A"]), sig)
         if not same_mat(o["G2"], Gm, True):
             return ("second get_matrix() call returns another matrix", sig)
         return (None, "")
@@ -463,7 +580,7 @@ def coq_expr(m, meta, o):
     x, y = meta["x"], meta["y"]
     t = ctol(m.exact)
     op = meta["op"]
-    if any(isinstance(v, str) for v in o.values()):
+    if any(isinstance(v, str) for k, v in o.items() if k != "alias"):
         return "false"      # the model has no non-vector results: any such output is a disagreement
     ev = lambda v: enc_opt(v, enc_vec)
     em = lambda v: enc_opt(v, enc_mat)
@@ -625,6 +742,42 @@ def run(ctx):
             for _ in range(1 if op != "fa" else reps):
                 ms = {"backing": "function", "A": rmat(rng, nR, nD), "D": Ds, "R": Rs}
                 add(ms, op, rvec(rng, nD), rvec(rng, nR), "function/%s->%s/%s" % (mk_geom(Ds).family, mk_geom(Rs).family, op))
+
+    # ---- 2b. function pairs that return a VIEW of their argument, the argument itself, or modify it in place -----
+    # (get_matrix / T.get_matrix reuse one unit-vector buffer: anything that keeps the returned column without copying it
+    #  ends up with zeros; results must stay what they were after later calls)
+    perm5 = list(range(5)); rng.shuffle(perm5)
+    view_specs = [("identity", 3, None), ("identity_view", 4, None), ("ravel", 3, None), ("decimate", 6, 2), ("decimate", 7, 3),
+                  ("upsample", 6, 2), ("upsample", 5, 3), ("window", 6, [1, 4]), ("embed", 6, [2, 5]), ("flip", 4, None), ("flip", 5, None),
+                  ("perm", 5, perm5), ("inplace_scale", 3, 2), ("inplace_scale", 4, 0.5)]
+    for vi, (kind, n, par) in enumerate(view_specs):
+        A = impl_pair(kind, n, par)[2]
+        nR, nD = A.shape
+        combos = list(itertools.product(geom_specs_1d(nD), geom_specs_1d(nR)))
+        if not ctx.thorough:
+            combos = [combos[0], combos[(vi + 1) % len(combos)], combos[(2 * vi + 3) % len(combos)]]
+        for (Ds, Rs) in combos:
+            for op in OPS:
+                for _ in range(1 if op != "fa" else reps):
+                    ms = {"backing": "function", "impl": kind, "n": n, "par": par, "A": [[int(v) if float(v).is_integer() else float(v) for v in r] for r in A],
+                          "D": Ds, "R": Rs}
+                    add(ms, op, rvec(rng, nD), rvec(rng, nR), "function-view/%s/%s" % (kind, op), trivial=(kind == "identity"))
+    # the same through reshaping geometries: Image2D.par2fun / fun2par are themselves views (reshape / ravel) of the parameter vector
+    img_pairs = [(["image", 2, 3, "C"], ["image", 2, 3, "C"]), (["image", 2, 3, "C"], ["image", 2, 3, "F"]), (["image", 3, 2, "F"], ["image", 3, 2, "F"]),
+                 (["tuple", 2, 2], ["cont2d", 2, 2]), (["image", 2, 2, "F"], ["tuple", 2, 2])]
+    for kind in ("identity", "identity_view"):
+        for (Ds, Rs) in img_pairs:
+            n = Ds[1] * Ds[2]
+            for op in OPS:
+                for _ in range(1 if op != "fa" else reps):
+                    ms = {"backing": "function", "impl": kind, "n": n, "par": None, "A": [[int(i == j) for j in range(n)] for i in range(n)], "D": Ds, "R": Rs}
+                    add(ms, op, rvec(rng, n), rvec(rng, n), "function-view/%s@%s->%s/%s" % (kind, mk_geom(Ds).family, mk_geom(Rs).family, op))
+    # callables returning a list / tuple: forward and adjoint accept them (get_matrix does not: it indexes the column as an array)
+    for kind, n, par in [("decimate_list", 6, 2), ("decimate_tuple", 5, 2)]:
+        A = impl_pair(kind, n, par)[2]
+        for _ in range(reps):
+            ms = {"backing": "function", "impl": kind, "n": n, "par": par, "A": [[int(v) for v in r] for r in A], "D": ["int", A.shape[1]], "R": ["cont1d", A.shape[0]]}
+            add(ms, "fa", rvec(rng, A.shape[1]), rvec(rng, A.shape[0]), "function-view/%s/fa" % kind)
 
     # ---- 3. expansions and mapped geometries (non-orthogonal maps), both backings, domain and range side --------
     exp_specs = [["step", 6, 3], ["step", 4, 2], ["step", 8, 4], ["step", 7, 3], ["step", 5, 2], ["step", 3, 3], ["step", 9, 2],
